@@ -22,6 +22,7 @@ from datetime import datetime
 from vcore import Infra, canon, hexs, pyres
 
 EPOCH2000 = 946684800
+LOAD_PADDED = True   # set in run() from the REAL code: CmdLoad.export() writes the padded length into the header's byte count
 WRAP_OK = False   # set in run(): spsdk.crypto.symmetric.Counter wraps at 2^32 instead of raising OverflowError (C09)
 EXT_MEM_IDS = [1, 4, 8, 9, 10, 11, 16]
 DATA = os.environ.get("SPSDK_REPO", "/repo") + "/tests"
@@ -167,8 +168,13 @@ def fill_pattern(p):
     return p * 0x01010101 if p < 256 else p * 0x10001 if p < 65536 else p
 
 
-def exp_view(sp, exact=False):
-    """What the loader must do for a command given to the builder (independent arithmetic; twin of Spec.view)."""
+def exp_view(sp, exact=None):
+    """What the loader must do for a command given to the builder (independent arithmetic; twin of Spec.view).
+
+    LOAD: `exact` = exactly the given bytes; otherwise the data zero-padded to 16 (open finding C04-load-count-padded).
+    The default follows what the REAL code writes into the byte count (LOAD_PADDED, measured in run()), never the model."""
+    if exact is None:
+        exact = not LOAD_PADDED
     k = sp[0]
     if k == "N":
         return "nop"
@@ -354,7 +360,23 @@ def build_image(case, chains, zero=True):
     return img
 
 
-def exp_sections(case, exact=False):
+def rom_shape_ok(ans, image):
+    """a driver answer of the ROM ops that has the expected shape (anything else = broken driver, a disagreement)"""
+    if not isinstance(ans, str):
+        return False
+    if ans.startswith("E:rom:"):
+        return True
+    if not ans.startswith("ok:"):
+        return False
+    if not image:
+        return ";" in ans
+    head, sep, _ = ans[3:].partition(";sections=")
+    keys = [kv.split("=", 1)[0] for kv in head.split(";") if "=" in kv]
+    return bool(sep) and keys == ["ver", "flags", "ib", "fbtb", "fbsid", "offc", "hb", "kbb", "kbc", "mmc", "ts", "pv", "cv", "bn",
+                                  "nonce", "dek", "mac", "signed", "sig", "cert"]
+
+
+def exp_sections(case, exact=None):
     return "|".join(f"{s['uid']}:{0x8001}:{mac_count(s)}:[" + ",".join(exp_view(c, exact) for c in s["cmds"]) + "]" for s in case["sections"])
 
 
@@ -460,9 +482,15 @@ def run(ck, only_cases=None):
     ck.lean_obligations(generated=["Sb2Consts"])
     drv = ck.driver()
     rng = ck.rng
-    global WRAP_OK
+    # driver ops that evaluate Spec-only definitions (lean/SpsdkVerif/Spec/Sb2Rom.lean + Crypto/*: no import of Generated/ or of the
+    # hand model of the code) - the only driver answers that oracle expectations (`expect`) may rely on
+    ck.spec_ops = {"rom_cmd", "rom21", "rom20"}
+    global WRAP_OK, LOAD_PADDED
     WRAP_OK = pyres(lambda: Counter(b"\xff" * 16, 5).value)[0] == "ok"
     ck.extra["counter_wraps"] = WRAP_OK
+    probe = pyres(lambda: C.CmdLoad(0, b"12345", zero_filling=True).export())
+    LOAD_PADDED = not (probe[0] == "ok" and int.from_bytes(probe[1][8:12], "little") == 5)
+    ck.extra["load_count_is_padded_length"] = LOAD_PADDED
     ck.assume(
         "AES-256, SHA-256, HMAC, RFC 3394 key wrap and CRC-32/MPEG-2 of `cryptography`/`crcmod` equal the executable Lean "
         "references (validated by the C09 check; here implicitly by byte equality of whole files)",
@@ -514,16 +542,24 @@ def run(ck, only_cases=None):
             p = pyres(lambda: C.parse_command(r[1] + tail))
             okp = p[0] == "ok" and obj_view(p[1]) == exp_view(sp) and p[1].raw_size == len(r[1])
             s.expect(okp, sp, "parse_command(export(cmd)) does not give back the command", obj_view(p[1]) if p[0] == "ok" else p, exp_view(sp))
+    # the open finding is read off the REAL bytes (byte count field of the exported LOAD header), not off any model
+    for sp, r in zip(specs, reals):
+        if r[0] == "ok" and unaligned_load(sp):
+            cnt, padded = int.from_bytes(r[1][8:12], "little"), (sp[4] + 15) // 16 * 16
+            if cnt == padded and r[1][16:] == pad16(load_data(sp[4], sp[5])):
+                s.expect(False, ["load-count", sp[4]], "LOAD byte count in the file is the padded length: the loader writes the padding too",
+                         f"count={cnt}", f"count={sp[4]}", finding="C04-load-count-padded")
+            else:
+                s.expect(cnt == sp[4], sp, "LOAD byte count is neither the data length nor the padded length (or the padding is not zero)", cnt, sp[4])
     for i, ans in zip(rom_idx, ask(rom_lines)):
         if ans is None:
             break
         sp, r = specs[i], reals[i]
+        if not rom_shape_ok(ans, image=False):
+            s.compare(sp, "well-formed answer of the ROM model", str(ans)[:60], "driver answer")
+            continue
         want = f"ok:{len(r[1])};{exp_view(sp)}"
         s.expect(ans == want, sp, "ROM model does not decode the exported command to the given command", ans, want)
-        if unaligned_load(sp) and ans == want:
-            exact = f"ok:{len(r[1])};{exp_view(sp, exact=True)}"
-            s.expect(ans == exact, ["load-count", sp[4]], "LOAD byte count in the file is the padded length: the loader writes the padding too",
-                     f"count={(sp[4] + 15) // 16 * 16}", f"count={sp[4]}", finding="C04-load-count-padded")
 
     # ================================================================== 2. parse_command on arbitrary bytes
     s = ck.stream("cmd_parse", "parse_command vs the Lean parser model on exported commands with field/checksum/CRC mutations, truncations "
@@ -740,8 +776,11 @@ def check_config_path(ck, drv, s, chains, idx):
         cert = cli[1][208: 208 + len(cert)]
         want = "ok:" + exp_content(case, cert, sig) + exp_sections(case)
         ans = drv.ask(f"rom21 {case['kek']} {cli[1].hex()}")
-        okr = ans == want and verify_obligation(cli[1], rom_fields(ans)) is True
-        s.expect(okr, case, "ROM model does not accept the CLI's output with the content of the configuration", _diff(ans, want))
+        if not rom_shape_ok(ans, image=True):
+            s.compare(case, "well-formed answer of the ROM model", str(ans)[:60], "driver answer")
+        else:
+            okr = ans == want and verify_obligation(cli[1], rom_fields(ans)) is True
+            s.expect(okr, case, "ROM model does not accept the CLI's output with the content of the configuration", _diff(ans, want))
     import shutil
     shutil.rmtree(tmp, ignore_errors=True)
 
@@ -864,27 +903,36 @@ def check_image(ck, drv, s, st, case, chains, n_flip, BootImageV20, BootImageV21
         s.compare(case, "ok:" + file.hex(), model_file, "exported image bytes (signature taken from SPSDK's output)")
         # Lean specification = Python expectation (ties Spec.expected21/20 to this file's exp_content)
         s.compare(case, want, spec_line, "Lean specification `expected` vs the harness' independent expectation (or input not WF)")
-        # (ii) ROM model on SPSDK's bytes
-        if not s.expect(rom_line == want, case, "ROM model does not accept SPSDK's file with exactly the given content",
-                        _diff(rom_line, want), "see 'want' fields"):
+        # (ii) ROM model (Spec-only op) on SPSDK's bytes
+        if not rom_shape_ok(rom_line, image=True):
+            s.compare(case, "well-formed answer of the ROM model", str(rom_line)[:60], "driver answer")
+            rom_line = None
+        elif not s.expect(rom_line == want, case, "ROM model does not accept SPSDK's file with exactly the given content",
+                          _diff(rom_line, want), "see 'want' fields"):
             return
-        f = rom_fields(rom_line)
-        ob = verify_obligation(file, f)
-        s.expect(ob is (True if case["signed"] else None), case, "signature does not verify over the range the ROM authenticates", ob)
-        if nun:
-            s.expect(False, ["load-count", nun], "LOAD byte count in the file is the padded length: the loader writes the padding too",
-                     "padded", "exact", finding="C04-load-count-padded")
+        else:
+            f = rom_fields(rom_line)
+            ob = verify_obligation(file, f)
+            s.expect(ob is (True if case["signed"] else None), case, "signature does not verify over the range the ROM authenticates", ob)
+    else:
+        rom_line = None
+    if nun and LOAD_PADDED:     # measured on the real code (run()), independent of the driver
+        s.expect(False, ["load-count", nun], "LOAD byte count in the file is the padded length: the loader writes the padding too",
+                 "padded", "exact", finding="C04-load-count-padded")
     # SPSDK's default: random padding of LOAD data and of the header (no byte comparison possible) - the ROM model must
     # still accept and report the given content; only the bytes behind the given LOAD data and the signature may differ
-    if drv is not None and rng.random() < 0.3:
+    if rom_line is not None and rng.random() < 0.3:
         rr = pyres(lambda: build_image(case, chains, zero=False).export())
         if rr[0] != "ok":
             s.expect(False, case, "SPSDK refuses to build the image with random padding", rr)
         else:
             ans = drv.ask(f"rom{'21' if v21 else '20'} {case['kek']} {rr[1].hex()}")
-            okr = ans.startswith("ok:") and same_modulo_padding(case, ans, want) and \
-                verify_obligation(rr[1], rom_fields(ans)) is (True if case["signed"] else None)
-            s.expect(okr, case, "ROM model does not accept SPSDK's file built with random padding (content or signature)", _diff(ans, want))
+            if not rom_shape_ok(ans, image=True):
+                s.compare(case, "well-formed answer of the ROM model", str(ans)[:60], "driver answer")
+            else:
+                okr = ans.startswith("ok:") and same_modulo_padding(case, ans, want) and \
+                    verify_obligation(rr[1], rom_fields(ans)) is (True if case["signed"] else None)
+                s.expect(okr, case, "ROM model does not accept SPSDK's file built with random padding (content or signature)", _diff(ans, want))
     # header describes the file (on the real bytes, independent of the model)
     h = struct.unpack_from("<16s4s4s2BH4I4H4sQ12HI4s", file)
     ib, fbtb = h[6], h[7]
@@ -901,7 +949,7 @@ def check_image(ck, drv, s, st, case, chains, n_flip, BootImageV20, BootImageV21
         s.compare(case, "ok:" + got if p[0] == "ok" else "E", _err(pmodel_line), "BootImageV2x.parse vs the Lean parser model")
         s.compare(case, "ok:" + exp_parsed_view(case), pspec_line, "Lean `parsedOf` vs the harness' expectation of the parsed content")
     # (iv) wrong KEK, bit flips
-    good_rom = rom_fields(rom_line) if drv is not None else None
+    good_rom = rom_fields(rom_line) if rom_line is not None else None
     trials = [("wrong_kek", None, None)]
     regs = regions(case, file, len(cert), sig_len)
     picks = rng.sample(regs, min(n_flip, len(regs)))
@@ -928,7 +976,10 @@ def check_image(ck, drv, s, st, case, chains, n_flip, BootImageV20, BootImageV21
     for (name, pos, bit, f2, k2), ans, pans in zip(metas, answers[0::2], answers[1::2]):
         inp = {"case": case, "region": name, "byte": pos, "bit": bit}
         st.note([case["nonce"], case["kek"], name, pos, bit], cls=("sect_" + name.split("_", 1)[-1]) if name[0] == "s" and name[1].isdigit() else name)
-        if ans is not None:
+        if ans is not None and (good_rom is None or not rom_shape_ok(ans, image=True)):
+            if good_rom is not None:
+                st.compare(inp, "well-formed answer of the ROM model", str(ans)[:60], "driver answer")
+        elif ans is not None:
             if ans.startswith("ok:"):
                 f = rom_fields(ans)
                 ob = verify_obligation(f2, f)
